@@ -277,7 +277,16 @@ func multisetDiff(a, b []sendKey) (onlyA, onlyB []sendKey) {
 func runC13(tier string, _ []string) int {
 	c := vlib.NewCtx("C13", tier, "exploration")
 	vlib.SetPortBlock(13)
-	c.SetRule("per case a fresh instance with a real Rule client (client.NewManager + NewRuleClient) and a PRNG rule: 1-4 conditions mixing point conditions (number > < = !=, on/off, text = != contains; node / type / key filters) and schedule conditions (windows placed around the real UTC now: active, inactive, wrap-around; weekday and date filters), 0-3 set-value actions and 0-2 inactive actions with targets inside and outside the watched subtree; then 30-150 acknowledged batches from matching and non-matching nodes, types and keys with values at and around every threshold (+-eps, +-0, +-Inf) and triggers forced through foreign points to the rule node; about one step in ten edits a condition of the running rule (date list grows / shrinks, weekday switched, threshold or text changed), the model follows the rule.configPoints events. Monitor: the verif hook sites rule.process / rule.send / rule.batchDone give the batches in the order the rule really processed them; a reference model of docs/user/rules.md is stepped over that sequence and after every batch compares condition states, rule state and the points the rule emitted; at settled points (marker batches through both input paths) the store content (active flags, action flags, target points with the rule as origin) must equal the model. distinct = (condition kinds/operators present, number of conditions, state transitions seen)")
+	// the process runs in a time zone whose calendar date differs from the UTC date right now (UTC+13 in
+	// the second half of the UTC day, UTC-11 in the first): schedule windows are defined on UTC days,
+	// whatever zone the trigger time (time.Now() inside the rule client) is expressed in
+	if time.Now().UTC().Hour() >= 11 {
+		time.Local = time.FixedZone("verif+13", 13*3600)
+	} else {
+		time.Local = time.FixedZone("verif-11", -11*3600)
+	}
+	c.Extra("process_time_zone", time.Local.String())
+	c.SetRule("per case a fresh instance with a real Rule client (client.NewManager + NewRuleClient) and a PRNG rule: 1-4 conditions mixing point conditions (number > < = !=, on/off, text = != contains; node / type / key filters) and schedule conditions (windows placed around the real UTC now: active, inactive, wrap-around; weekday and date filters), 0-3 set-value actions and 0-2 inactive actions with targets inside and outside the watched subtree; then 30-150 acknowledged batches from matching and non-matching nodes, types and keys with values at and around every threshold (+-eps, +-0, +-Inf) (a third of the points carry timestamps hours behind or ahead of the previous ones) and triggers forced through foreign points to the rule node; the process runs in a time zone whose date differs from the UTC date; about one step in ten edits a condition of the running rule (date list grows / shrinks, weekday switched, threshold or text changed), the model follows the rule.configPoints events. Monitor: the verif hook sites rule.process / rule.send / rule.batchDone give the batches in the order the rule really processed them; a reference model of docs/user/rules.md is stepped over that sequence and after every batch compares condition states, rule state and the points the rule emitted; at settled points (marker batches through both input paths) the store content (active flags, action flags, target points with the rule as origin) must equal the model. distinct = (condition kinds/operators present, number of conditions, state transitions seen)")
 	c.Assume("action executions not associated with a change of rule state are tolerated for trigger batches (configuration changes re-run the current list today); NaN inputs are not generated; condition point types are disjoint from action point types so that the rule's own output never re-enters its conditions")
 	nRules := c.N(40, 800)
 	wd := c.NewWatchdog()
@@ -783,6 +792,9 @@ func runC13(tier string, _ []string) int {
 				}
 				for _, cs := range aimed {
 					p := data.Point{Type: cs.PointType, Key: cs.PointKey, Time: d.now(), Origin: "harness"}
+					if r.Chance(0.3) {
+						p.Time = p.Time.Add(time.Duration(r.Intn(7)-3) * time.Hour)
+					}
 					switch cs.ValueType {
 					case data.PointValueNumber:
 						delta := map[string]float64{">": 1, "<": -1, "=": 0, "!=": 3}[cs.Operator]
@@ -841,6 +853,11 @@ func runC13(tier string, _ []string) int {
 			var pts data.Points
 			for q := 0; q < n; q++ {
 				p := data.Point{Type: types[r.Intn(len(types))], Key: []string{"", "", "a", "1", "zz"}[r.Intn(5)], Time: d.now(), Value: nearValues(), Text: []string{"on", "alarm", "A b", "", "alarm on", "ALARM", "off"}[r.Intn(7)], Origin: "harness"}
+				if r.Chance(0.3) {
+					// a source whose clock jumps: timestamps far behind or ahead of what was sent before (the
+					// rule is told of every delivered point in arrival order, whatever its timestamp)
+					p.Time = p.Time.Add(time.Duration(r.Intn(7)-3) * time.Hour)
+				}
 				pts = append(pts, p)
 			}
 			e, err := d.sendNode(node, pts)
